@@ -118,6 +118,7 @@ def cases(tier, seed):
             for g in fn_all:
                 out.append({'tree': (f, ('*', '0.25', (g, vs[0]))), 'vars': list(vs), 'form': forms[i % 3],
                             'seed': seed, 'n': 3, 'positive': True})
+    out += idx_cases(tier, seed)
     # user variables that look like generated labels (x_v1) next to variables that receive such labels: every
     # assignment of {one x, x and x_v1, two x in one node} to 2-3 nodes (order decides who is registered first)
     from .. import gen
@@ -133,7 +134,9 @@ def describe(tier, seed):
                     'to N operator nodes, leaves filled from colliding variable-name sets and literal tables; each in 4 '
                     'surface variants (spacing/^ vs **/full parentheses/commuted operands) and one of the 3 equation '
                     'forms; evaluated on both paths of the real code at 3 valuations vs python-ast/NumPy; non-trivial = '
-                    'reference value depends on >=1 variable and is finite; distinct = distinct rendered string',
+                    'reference value depends on >=1 variable and is finite; distinct = distinct rendered string; plus index / '
+                    'index_2d / index_range / index_axis helpers (also nested and with an index vector) on a vector and a '
+                    'matrix in all binary combinations of 15 helper terms, under 3 unary functions and in 3-term quotients',
             'bounds': {'operator_nodes': 3 if tier == 'quick' else 4}}
 
 
@@ -181,6 +184,8 @@ def build_op(expr, vs, form, vals):
 def run_case(case):
     from ..refsem import evaluate
     from .. import impl, pool
+    if case.get('idx'):
+        return run_idx(case)
     if case.get('net'):
         from . import C01
         r = C01.run_case({'spec': case['spec'], 'cfg': case['cfg'], 'seed': case.get('seed', 0)})
@@ -330,3 +335,141 @@ def sympy_features(expr):
     if e.has(sympy.zoo, sympy.nan, sympy.oo):
         f.append('degenerate')
     return f
+
+
+# ---- index helpers on vectors and matrices -------------------------------------------------------------------------
+IDX_V = np.array([0.5, 1.5, -2.0, 3.0, 0.25])
+IDX_M = 0.25 + 0.5 * np.arange(12, dtype=float).reshape(4, 3) * np.array([1.0, -1.0, 1.0])
+IDX_B = np.array([0, 2], dtype=np.int32)
+IDX_R = 0.7
+
+
+def idx_terms(tier):
+    t = [('index', 'v', 0), ('index', 'v', 1), ('index', 'v', 4),
+         ('index_2d', 'M', 0, 0), ('index_2d', 'M', 1, 2), ('index_2d', 'M', 3, 1),
+         ('vsum', ('index_range', 'v', 1, 4)), ('vsum', ('index_range', 'v', 0, 2)),
+         ('index', ('index_axis', 'M', 2, 1), 1), ('index', ('index_axis', 'M', 3, 0), 2),
+         ('mean', ('index_axis', 'M', 1, 0)), ('mean', ('index_axis', 'M', 0, 1)),
+         ('vsum', ('index', 'v', 'B')), 'r', '2']
+    if tier != 'quick':
+        t += [('index', 'v', 2), ('index', 'v', 3), ('index_2d', 'M', 2, 2), ('maxi', ('index_range', 'v', 2, 5)),
+              ('index', ('index', 'M', 1), 2), ('vsum', ('index_2d', 'M', 'B', 1))]
+    return t
+
+
+def idx_render(t):
+    if isinstance(t, tuple):
+        if t[0] in BIN:
+            return f'({idx_render(t[1])} {t[0]} {idx_render(t[2])})'
+        return f"{t[0]}({', '.join(idx_render(a) for a in t[1:])})"
+    return str(t)
+
+
+def idx_eval(t):
+    if isinstance(t, tuple):
+        h = t[0]
+        if h in BIN:
+            a, b = idx_eval(t[1]), idx_eval(t[2])
+            with np.errstate(all='ignore'):
+                return {'+': a + b, '-': a - b, '*': a * b, '/': a / b, '^': np.float64(a) ** np.float64(b)}[h]
+        if h == 'index':
+            return idx_eval(t[1])[idx_eval(t[2])]
+        if h == 'index_2d':
+            return idx_eval(t[1])[idx_eval(t[2]), idx_eval(t[3])]
+        if h == 'index_range':
+            return idx_eval(t[1])[t[2]:t[3]]
+        if h == 'index_axis':
+            return idx_eval(t[1])[(slice(None),) * t[3] + (t[2],)]
+        f = {'vsum': np.sum, 'mean': np.mean, 'maxi': np.max, 'sin': np.sin, 'absv': np.abs, 'neg': np.negative}[h]
+        return f(idx_eval(t[1]))
+    if isinstance(t, (int, np.integer)):
+        return t
+    return {'v': IDX_V, 'M': IDX_M, 'B': IDX_B, 'r': IDX_R}.get(t, None) if t in ('v', 'M', 'B', 'r') else float(t)
+
+
+def idx_cases(tier, seed):
+    out = []
+    T = idx_terms(tier)
+    for a in T:
+        for f in ('sin', 'absv', 'neg'):
+            if isinstance(a, str):
+                continue   # functions of plain variables / literals belong to the skeleton grammar above
+            out.append({'idx': True, 'tree': (f, a) if f != 'neg' else ('-', '0.5', a), 'seed': seed})
+        for b in T:
+            if isinstance(a, str) and isinstance(b, str):
+                continue
+            for op in BIN:
+                out.append({'idx': True, 'tree': (op, a, b), 'seed': seed})
+    # three helper terms in one expression (quotients and powers of products)
+    for a, b, c in itertools.product(T[:9:2], T[1:10:3], T[2:12:4]):
+        for o1, o2 in (('*', '/'), ('/', '*'), ('^', '/'), ('-', '/'), ('/', '/')):
+            out.append({'idx': True, 'tree': (o2, (o1, a, b), c), 'seed': seed})
+    return out
+
+
+def run_idx(case):
+    from pyrates import OperatorTemplate, NodeTemplate, CircuitTemplate
+    from pyrates.backend.computegraph import ComputeGraph
+    from pyrates.backend.parser import ExpressionParser
+    from .. import pool
+    tree = tuple_tree(case['tree'])
+    res = {'evals': 0, 'nontrivial': True}
+    expr = idx_render(tree)
+    if expr.startswith('(') and expr.endswith(')'):
+        expr = expr[1:-1]
+    sig = {'features': ['index_helpers']}
+
+    def viol(kind, **kw):
+        res['viol'] = dict(kind=kind, sig=dict(sig, kind=kind), expr=expr, **kw)
+        res['ok'] = False
+        return res
+    try:
+        ref = float(idx_eval(tree))
+    except (ZeroDivisionError, OverflowError, ValueError, TypeError, IndexError):
+        ref = float('nan')
+    if not math.isfinite(ref) or abs(ref) > 1e8 or abs(ref) < 1e-9:
+        res.update(rejected=True, ok=True, outcome='rejected', nontrivial=False)
+        return res
+    arr = lambda a, dt: {'vtype': 'constant', 'value': a.copy(), 'shape': a.shape, 'dtype': dt}
+    # path (i): parser + eval_node
+    try:
+        cg = ComputeGraph(backend='default', float_precision='float64')
+        args = {'v': arr(IDX_V, 'float64'), 'M': arr(IDX_M, 'float64'), 'B': arr(IDX_B, 'int32'),
+                'r': {'vtype': 'constant', 'value': IDX_R, 'shape': (), 'dtype': 'float64'},
+                'qq': {'vtype': 'variable', 'value': 0.0, 'shape': (), 'dtype': 'float64'}}
+        ExpressionParser(expr_str=f"qq = {expr}", args=args, cg=cg).parse_expr()
+        got = float(np.asarray(cg.eval_node(cg.var_updates['non-DEs']['qq'])).reshape(-1)[0])
+    except Exception as e:
+        sig.update(exc=type(e).__name__, path='eval_node')
+        return viol('raises', path='eval_node', detail=f'{type(e).__name__}: {e}'[:200])
+    res['evals'] += 1
+    if not close(got, ref):
+        sig['path'] = 'eval_node'
+        return viol('value_mismatch', path='eval_node', got=got, expected=ref)
+    pool.fresh_state()
+    # path (ii): generated code
+    try:
+        variables = {'q': 'output(0.0)', 'r': IDX_R}
+        if "'v'" in repr(tree):
+            variables['v'] = {'vtype': 'constant', 'dtype': 'float', 'value': IDX_V.copy(), 'shape': IDX_V.shape}
+        if "'M'" in repr(tree):
+            variables['M'] = {'vtype': 'constant', 'dtype': 'float', 'value': IDX_M.copy(), 'shape': IDX_M.shape}
+        if "'B'" in repr(tree):
+            variables['B'] = {'vtype': 'constant', 'dtype': 'int', 'value': IDX_B.copy(), 'shape': IDX_B.shape}
+        if "'r'" not in repr(tree):
+            variables.pop('r')
+        op = OperatorTemplate('op', equations=[f"d/dt * q = -q + {expr}"], variables=variables)
+        c = CircuitTemplate('c', nodes={'n': NodeTemplate('n', operators=[op])})
+        f, a, n, s_ = c.get_run_func('vf', vectorize=False, step_size=0.1, backend='default', verbose=False, clear=True,
+                                     float_precision='float64')
+        got = float(np.asarray(f(*a)).reshape(-1)[0])
+    except Exception as e:
+        sig.update(exc=type(e).__name__, path='codegen')
+        return viol('raises', path='codegen', detail=f'{type(e).__name__}: {e}'[:200])
+    res['evals'] += 1
+    if not close(got, ref):
+        sig['path'] = 'codegen'
+        return viol('value_mismatch', path='codegen', got=got, expected=ref)
+    res['outcome'] = f'{ref:.9g}'
+    res['ok'] = True
+    return res
